@@ -22,6 +22,9 @@ from snaxc.dialects import accfg
 
 State = dict[str, SSAValue]
 
+# loop-carried state block arguments whose state is currently being inferred (see infer_state_of)
+_loop_heads_in_progress: set[SSAValue] = set()
+
 
 def infer_state_of(state_var: SSAValue) -> State:
     """
@@ -44,12 +47,32 @@ def infer_state_of(state_var: SSAValue) -> State:
             yield_op = for_op.body.block.last_op
             assert isinstance(yield_op, scf.YieldOp)
             assert state_var in for_op.results  # this must be true because state_var.owner == for_op
-            return infer_state_of(yield_op.operands[for_op.results.index(state_var)])
+            idx = for_op.results.index(state_var)
+            # the loop may run zero times, so only values that are set both before
+            # the loop and at the end of the loop body are guaranteed afterwards
+            return state_intersection(
+                infer_state_of(for_op.iter_args[idx]),
+                infer_state_of(yield_op.operands[idx]),
+            )
         case Block() as block:
             match block.parent_op():
                 case scf.ForOp() as for_op:
                     assert isinstance(state_var, BlockArgument)  # must be a block argument for owner to be a block!
-                    return infer_state_of(for_op.iter_args[state_var.index - 1])
+                    # At the loop head the state is the initial state on the first iteration, and the
+                    # yielded state on all others. Only values on which both agree are guaranteed.
+                    init_state = infer_state_of(for_op.iter_args[state_var.index - 1])
+                    if state_var in _loop_heads_in_progress:
+                        # we got here by walking up from the yield of this same loop:
+                        # assume the initial state, the caller intersects with it.
+                        return init_state
+                    yield_op = for_op.body.block.last_op
+                    assert isinstance(yield_op, scf.YieldOp)
+                    _loop_heads_in_progress.add(state_var)
+                    try:
+                        yielded_state = infer_state_of(yield_op.operands[state_var.index - 1])
+                    finally:
+                        _loop_heads_in_progress.discard(state_var)
+                    return state_intersection(init_state, yielded_state)
                 case _:
                     return {}
         case _:
